@@ -40,6 +40,10 @@ type World struct {
 	wg       sync.WaitGroup
 	checks   int64
 	healed   bool
+	userUp   map[string]int64 // bytes returned by server-side Read, per user (model of C19)
+	userDown map[string]int64 // bytes accepted by server-side Write, per user
+	histHash uint64
+	histEvents int64
 	acceptErrs int
 
 	fate *fatePlan
@@ -207,7 +211,7 @@ func clientProfilePB(s *spec.RunSpec, c *spec.Client, idx int) *appctlpb.ClientP
 
 // NewWorld builds the network, starts the real server and the real clients.
 func NewWorld(s *spec.RunSpec, res *spec.RunResult) (*World, error) {
-	w := &World{Spec: s, Res: res, sessions: map[string]*sessRT{}, probes: map[string]int{}, faults: map[string]int{}, states: map[string]struct{}{}}
+	w := &World{Spec: s, Res: res, sessions: map[string]*sessRT{}, probes: map[string]int{}, faults: map[string]int{}, states: map[string]struct{}{}, userUp: map[string]int64{}, userDown: map[string]int64{}}
 	w.start = time.Now()
 	w.Net = simnet.New(s.Seed)
 	w.Net.KeepLog = s.KeepLog
@@ -359,4 +363,20 @@ func (w *World) connTampered(id int) bool {
 		}
 	}
 	return false
+}
+
+func (w *World) account(user string, up, down int64) {
+	if user == "" {
+		return
+	}
+	w.mu.Lock()
+	w.userUp[user] += up
+	w.userDown[user] += down
+	w.mu.Unlock()
+}
+
+func (w *World) userTotal(user string) int64 {
+	w.mu.Lock()
+	defer w.mu.Unlock()
+	return w.userUp[user] + w.userDown[user]
 }
